@@ -35,6 +35,8 @@ type group struct {
 	MaxExprCnt uint64
 	Choices    int
 	PanicKinds map[string]int
+	ExprHist   map[string]int // exprCnt by decade
+	BigLines   int            // result lines longer than 1 MB
 }
 
 func (g *group) add(r *pvcase.Result) {
@@ -72,6 +74,16 @@ func (g *group) add(r *pvcase.Result) {
 		g.WithTrace++
 	}
 	g.ExprCnt += r.ExprCnt
+	if g.ExprHist == nil {
+		g.ExprHist = map[string]int{}
+	}
+	dec := "1e0"
+	for lim, k := uint64(10), 1; k <= 9; lim, k = lim*10, k+1 {
+		if r.ExprCnt >= lim {
+			dec = fmt.Sprintf("1e%d", k)
+		}
+	}
+	g.ExprHist[dec]++
 	if r.ExprCnt > g.MaxExprCnt {
 		g.MaxExprCnt = r.ExprCnt
 	}
@@ -134,6 +146,9 @@ func main() {
 				fmt.Fprintf(os.Stderr, "pvstat: unparsable result line %.60q: %v\n", line, perr)
 			} else {
 				groups["all"].add(r)
+				if len(line) > 1<<20 {
+					groups["all"].BigLines++
+				}
 				if p, ok := profOf[r.ID]; ok {
 					if groups[p] == nil {
 						groups[p] = &group{}
@@ -175,6 +190,19 @@ func main() {
 				n, g.Cases, g.Ret, g.Panic, g.Timeout, g.Crash, g.BadVariant,
 				pct(g.NoErrors, g.Cases), pct(g.RetNonNil, g.Cases), evc, evt, ex)
 		}
+	}
+	if !*asJSON {
+		a := groups["all"]
+		var ks []string
+		for k := range a.ExprHist {
+			ks = append(ks, k)
+		}
+		sort.Strings(ks)
+		fmt.Print("exprCnt by decade:")
+		for _, k := range ks {
+			fmt.Printf(" >=%s:%d", k, a.ExprHist[k])
+		}
+		fmt.Printf("  max:%d  result lines > 1 MB: %d\n", a.MaxExprCnt, a.BigLines)
 	}
 	if bad > 0 {
 		os.Exit(1)
